@@ -2,7 +2,7 @@
 //! the real-time rule) on all histories of at most N events over 2 threads, plus
 //!  * inclusion: whatever the real LinearizabilityTester accepts, the real SC tester accepts;
 //!  * plain values: recording into a clone never alters the original (both testers).
-use crate::c08::{drive_caught, for_each_history, judge, lin_ser, model, new_lin, wants_any, Ser, Spec};
+use crate::c08::{drive_caught, for_each_history, for_each_wf_history3, judge, Ev, lin_ser, model, new_lin, wants_any, Ser, Spec};
 use crate::Ctx;
 use stateright::semantics::register::*;
 use stateright::semantics::{ConsistencyTester, SequentialConsistencyTester};
@@ -68,7 +68,12 @@ where
 
 pub fn run(ctx: &mut Ctx) {
     let only = ctx.only.clone();
-    for_each_history("sc", &only, &mut |base, events| {
+    for_each_history("sc", &only, &mut |base, events| one(ctx, base, events));
+    for_each_wf_history3("sc", &only, &mut |base, events| one(ctx, base, events));
+}
+
+fn one(ctx: &mut Ctx, base: &str, events: &[Ev]) {
+    {
         if !wants_any(ctx, base, &SUFFIXES) {
             return;
         }
@@ -107,5 +112,5 @@ pub fn run(ctx: &mut Ctx) {
             };
             ctx.check(&clone_case, "clone-independent", &["SC.lemma.plain_value_guard", "LIN.lemma.plain_value_guard"], r.is_ok(), obs, req);
         }
-    });
+    }
 }
